@@ -261,138 +261,140 @@ func ruleR017(c *Ctx) {
 						if len(cc.List) == 0 {
 							continue
 						}
-						opName := nodeStr(c.Fset, cc.List[0])
-						// the literals of the clause and of the private constructors it delegates to
-						var lits []*ast.FuncLit
-						collect := func(root ast.Node) {
-							ast.Inspect(root, func(y ast.Node) bool {
-								if lit, ok := y.(*ast.FuncLit); ok && isGeneratedClosure(a, info, lit) {
-									lits = append(lits, lit)
-									return false
-								}
-								return true
-							})
-						}
-						for _, s := range cc.Body {
-							collect(s)
-							ast.Inspect(s, func(y ast.Node) bool {
-								if call, ok := y.(*ast.CallExpr); ok {
-									if cal := Callee(info, call); cal != nil && cal.Pkg() == pkg.Types && cal.Origin() != a.genFunc.Origin() {
-										if hd := findFuncDecl(pkg, cal); hd != nil && hd.Body != nil && hd != fd {
-											collect(hd.Body)
+						for _, caseExpr := range cc.List { // case "&", "|": one clause compiles several operators
+							opName := nodeStr(c.Fset, caseExpr)
+							// the literals of the clause and of the private constructors it delegates to
+							var lits []*ast.FuncLit
+							collect := func(root ast.Node) {
+								ast.Inspect(root, func(y ast.Node) bool {
+									if lit, ok := y.(*ast.FuncLit); ok && isGeneratedClosure(a, info, lit) {
+										lits = append(lits, lit)
+										return false
+									}
+									return true
+								})
+							}
+							for _, s := range cc.Body {
+								collect(s)
+								ast.Inspect(s, func(y ast.Node) bool {
+									if call, ok := y.(*ast.CallExpr); ok {
+										if cal := Callee(info, call); cal != nil && cal.Pkg() == pkg.Types && cal.Origin() != a.genFunc.Origin() {
+											if hd := findFuncDecl(pkg, cal); hd != nil && hd.Body != nil && hd != fd {
+												collect(hd.Body)
+											}
 										}
 									}
-								}
-								return true
-							})
-						}
-						key := fmt.Sprintf("%s#lazy-operator %s", declName(pkg, fd), opName)
-						if len(lits) == 0 {
-							c.Undecided(key, cc.Pos(), "no generated closure found for the lazily compiled operator")
-							continue
-						}
-						n++
-						var bad []string
-						for _, lit := range lits {
-							inspectNoLit(lit.Body, func(y ast.Node) bool {
-								r, ok := y.(*ast.ReturnStmt)
-								if !ok {
 									return true
-								}
-								switch len(r.Results) {
-								case 1:
-									// return impl.Calc(st, a, b) with impl the operator's own (eager) implementation: agreement by construction
-									if cc, ok := ast.Unparen(r.Results[0]).(*ast.CallExpr); ok {
-										if sel, ok := ast.Unparen(cc.Fun).(*ast.SelectorExpr); ok && sel.Sel.Name == "Calc" {
-											if id, ok := ast.Unparen(sel.X).(*ast.Ident); ok {
-												scope := ast.Node(fd)
-												if ed := c.EnclosingDecl(r); ed != nil {
-													scope = ed // the closure may be built by a private constructor
-												}
-												if as, i := definingAssign(info, scope, info.ObjectOf(id)); as != nil && len(as.Lhs) == len(as.Rhs) && countAssignments(info, scope, info.ObjectOf(id)) == 1 {
-													if gc, ok := ast.Unparen(as.Rhs[i]).(*ast.CallExpr); ok && len(gc.Args) == 1 {
-														if cal := Callee(info, gc); cal != nil && cal.Name() == "GetOpImpl" {
-															if arg, ok := ast.Unparen(gc.Args[0]).(*ast.SelectorExpr); ok && arg.Sel.Name == "Operator" && isNamed(info.TypeOf(arg.X), modPath, "Operate") {
-																return true
+								})
+							}
+							key := fmt.Sprintf("%s#lazy-operator %s", declName(pkg, fd), opName)
+							if len(lits) == 0 {
+								c.Undecided(key, cc.Pos(), "no generated closure found for the lazily compiled operator")
+								continue
+							}
+							n++
+							var bad []string
+							for _, lit := range lits {
+								inspectNoLit(lit.Body, func(y ast.Node) bool {
+									r, ok := y.(*ast.ReturnStmt)
+									if !ok {
+										return true
+									}
+									switch len(r.Results) {
+									case 1:
+										// return impl.Calc(st, a, b) with impl the operator's own (eager) implementation: agreement by construction
+										if cc, ok := ast.Unparen(r.Results[0]).(*ast.CallExpr); ok {
+											if sel, ok := ast.Unparen(cc.Fun).(*ast.SelectorExpr); ok && sel.Sel.Name == "Calc" {
+												if id, ok := ast.Unparen(sel.X).(*ast.Ident); ok {
+													scope := ast.Node(fd)
+													if ed := c.EnclosingDecl(r); ed != nil {
+														scope = ed // the closure may be built by a private constructor
+													}
+													if as, i := definingAssign(info, scope, info.ObjectOf(id)); as != nil && len(as.Lhs) == len(as.Rhs) && countAssignments(info, scope, info.ObjectOf(id)) == 1 {
+														if gc, ok := ast.Unparen(as.Rhs[i]).(*ast.CallExpr); ok && len(gc.Args) == 1 {
+															if cal := Callee(info, gc); cal != nil && cal.Name() == "GetOpImpl" {
+																if arg, ok := ast.Unparen(gc.Args[0]).(*ast.SelectorExpr); ok && arg.Sel.Name == "Operator" && isNamed(info.TypeOf(arg.X), modPath, "Operate") {
+																	return true
+																}
 															}
 														}
 													}
 												}
 											}
 										}
+										// return child(st, cs): both results of an operand are handed through
+										bad = append(bad, fmt.Sprintf("%s at %s hands an operand through unchecked", nodeStr(c.Fset, r.Results[0]), c.posStr(r.Pos())))
+									case 2:
+										if id, ok := ast.Unparen(r.Results[1]).(*ast.Ident); !ok || id.Name != "nil" {
+											return true // an error return
+										}
+										t := info.TypeOf(r.Results[0])
+										if boolT == nil || t == nil || !types.Identical(t, boolT.Type()) {
+											bad = append(bad, fmt.Sprintf("%s at %s has the static type %s, not Bool", nodeStr(c.Fset, r.Results[0]), c.posStr(r.Pos()), t))
+										}
 									}
-									// return child(st, cs): both results of an operand are handed through
-									bad = append(bad, fmt.Sprintf("%s at %s hands an operand through unchecked", nodeStr(c.Fset, r.Results[0]), c.posStr(r.Pos())))
-								case 2:
-									if id, ok := ast.Unparen(r.Results[1]).(*ast.Ident); !ok || id.Name != "nil" {
-										return true // an error return
-									}
-									t := info.TypeOf(r.Results[0])
-									if boolT == nil || t == nil || !types.Identical(t, boolT.Type()) {
-										bad = append(bad, fmt.Sprintf("%s at %s has the static type %s, not Bool", nodeStr(c.Fset, r.Results[0]), c.posStr(r.Pos()), t))
-									}
-								}
-								return true
-							})
-						}
-						// the domain: if the eager implementation is defined on operands that are no bools (the bitwise
-						// operators on ints), the compiled form has to reach it for them
-						if len(bad) == 0 {
-							opText := ""
-							if tv := info.Types[cc.List[0]]; tv.Value != nil && tv.Value.Kind() == constant.String {
-								opText = constant.StringVal(tv.Value)
+									return true
+								})
 							}
-							nonBool := ""
-							for _, r := range c.registrations() {
-								if r.pkg != pkg || len(r.types) != 2 {
-									continue
+							// the domain: if the eager implementation is defined on operands that are no bools (the bitwise
+							// operators on ints), the compiled form has to reach it for them
+							if len(bad) == 0 {
+								opText := ""
+								if tv := info.Types[caseExpr]; tv.Value != nil && tv.Value.Kind() == constant.String {
+									opText = constant.StringVal(tv.Value)
 								}
-								// the constructor registered for this operator: AddOpImpl("&", .., And(f))
-								isCtor := false
-								for _, f2 := range pkg.Syntax {
-									ast.Inspect(f2, func(y ast.Node) bool {
-										call, ok := y.(*ast.CallExpr)
-										if !ok || len(call.Args) < 3 {
-											return true
-										}
-										if tv := info.Types[call.Args[0]]; tv.Value == nil || tv.Value.Kind() != constant.String || constant.StringVal(tv.Value) != opText {
-											return true
-										}
-										if ic, ok := ast.Unparen(call.Args[len(call.Args)-1]).(*ast.CallExpr); ok {
-											if cal := Callee(info, ic); cal != nil && cal.Name() == r.owner {
-												isCtor = true
+								nonBool := ""
+								for _, r := range c.registrations() {
+									if r.pkg != pkg || len(r.types) != 2 {
+										continue
+									}
+									// the constructor registered for this operator: AddOpImpl("&", .., And(f))
+									isCtor := false
+									for _, f2 := range pkg.Syntax {
+										ast.Inspect(f2, func(y ast.Node) bool {
+											call, ok := y.(*ast.CallExpr)
+											if !ok || len(call.Args) < 3 {
+												return true
 											}
-										}
-										return true
-									})
-								}
-								if isCtor && nodeStr(c.Fset, r.types[0]) != "BoolTypeId" {
-									nonBool = nodeStr(c.Fset, r.types[0]) + "," + nodeStr(c.Fset, r.types[1])
-								}
-							}
-							if nonBool != "" {
-								delegates := false
-								for _, lit := range lits {
-									if containsNode(lit.Body, func(y ast.Node) bool {
-										call, ok := y.(*ast.CallExpr)
-										if !ok {
-											return false
-										}
-										sel, ok := ast.Unparen(call.Fun).(*ast.SelectorExpr)
-										return ok && sel.Sel.Name == "Calc"
-									}) {
-										delegates = true
+											if tv := info.Types[call.Args[0]]; tv.Value == nil || tv.Value.Kind() != constant.String || constant.StringVal(tv.Value) != opText {
+												return true
+											}
+											if ic, ok := ast.Unparen(call.Args[len(call.Args)-1]).(*ast.CallExpr); ok {
+												if cal := Callee(info, ic); cal != nil && cal.Name() == r.owner {
+													isCtor = true
+												}
+											}
+											return true
+										})
+									}
+									if isCtor && nodeStr(c.Fset, r.types[0]) != "BoolTypeId" {
+										nonBool = nodeStr(c.Fset, r.types[0]) + "," + nodeStr(c.Fset, r.types[1])
 									}
 								}
-								if !delegates {
-									bad = append(bad, "the operator is also defined on ("+nonBool+"), but the compiled form never calls the operator's implementation: it fails for these operands at run time while the constant folder computes them (1 "+opText+" 2 differs with and without the optimizer)")
+								if nonBool != "" {
+									delegates := false
+									for _, lit := range lits {
+										if containsNode(lit.Body, func(y ast.Node) bool {
+											call, ok := y.(*ast.CallExpr)
+											if !ok {
+												return false
+											}
+											sel, ok := ast.Unparen(call.Fun).(*ast.SelectorExpr)
+											return ok && sel.Sel.Name == "Calc"
+										}) {
+											delegates = true
+										}
+									}
+									if !delegates {
+										bad = append(bad, "the operator is also defined on ("+nonBool+"), but the compiled form never calls the operator's implementation: it fails for these operands at run time while the constant folder computes them (1 "+opText+" 2 differs with and without the optimizer)")
+									}
 								}
 							}
-						}
-						if len(bad) == 0 {
-							c.OK(key, cc.Pos(), "every successful return of the compiled operator is a Bool or the result of the operator's own eager implementation (GetOpImpl of the same operator)")
-						} else {
-							c.Violation(key, cc.Pos(), "the lazily compiled operator %s can succeed with a value that is no Bool (%s): where the eager implementation used by the constant folder and the reference semantics fail with 'not a bool', the compiled code returns the operand", opName, strings.Join(bad, "; "))
+							if len(bad) == 0 {
+								c.OK(key, cc.Pos(), "every successful return of the compiled operator is a Bool or the result of the operator's own eager implementation (GetOpImpl of the same operator)")
+							} else {
+								c.Violation(key, cc.Pos(), "the lazily compiled operator %s can succeed with a value that is no Bool (%s): where the eager implementation used by the constant folder and the reference semantics fail with 'not a bool', the compiled code returns the operand", opName, strings.Join(bad, "; "))
+							}
 						}
 					}
 					return true
